@@ -30,7 +30,7 @@ func init() {
 }
 
 type bridgeCase struct {
-	Closer, Up, Down, Wseg, Rbuf string
+	Closer, Up, Down, Wseg, Rbuf, Pace string
 }
 
 // streamByte is the content of stream (conn c, direction d) at offset i: all 256 byte values occur.
@@ -169,7 +169,8 @@ type peer struct {
 	read   int
 	wrote  int // stream offset of the next byte this peer writes
 	eof    chan struct{}
-	agg    int // > 0: report reads in batches of at least this many bytes (tiny read buffers, large streams)
+	agg    int  // > 0: report reads in batches of at least this many bytes (tiny read buffers, large streams)
+	slow   bool // pause a millisecond after every read
 }
 
 func (p *peer) write(total int, seg string) {
@@ -202,6 +203,9 @@ func (p *peer) readLoop(rbuf string) {
 	for {
 		buf := make([]byte, sizeOf(rbuf, p.rng))
 		n, err := p.conn.Read(buf)
+		if p.slow && len(buf) >= 1024 {
+			time.Sleep(time.Millisecond)
+		}
 		if n > 0 {
 			ok := bytes.Equal(buf[:n], streamChunk(p.c, p.inDir, p.read, n))
 			p.read += n
@@ -322,6 +326,7 @@ func bridgeDriver(a *Args) {
 		}
 		client := &peer{conn: cl, c: c, outDir: "up", inDir: "down", rng: rand.New(rand.NewSource(rng.Int63())), eof: make(chan struct{})}
 		server := &peer{conn: sc, c: c, outDir: "down", inDir: "up", rng: rand.New(rand.NewSource(rng.Int63())), eof: make(chan struct{})}
+		client.slow, server.slow = bc.Pace == "slow-reader", bc.Pace == "slow-reader"
 		go client.readLoop(bc.Rbuf)
 		go server.readLoop(bc.Rbuf)
 		var wg sync.WaitGroup
@@ -447,7 +452,7 @@ func bridgeDriver(a *Args) {
 		res.Case(sig, map[string]interface{}{"case": bc, "up_bytes": upN, "down_bytes": downN})
 	}
 	for i, bc := range cases.Cases {
-		sig := fmt.Sprintf("bridge:%s/%s/%s/%s/%s", bc.Closer, bc.Up, bc.Down, bc.Wseg, bc.Rbuf)
+		sig := fmt.Sprintf("bridge:%s/%s/%s/%s/%s/%s", bc.Closer, bc.Up, bc.Down, bc.Wseg, bc.Rbuf, bc.Pace)
 		hx.Reset(fmt.Sprintf("bridge-%d", i), sig)
 		runCase(bc, sig)
 		time.Sleep(30 * time.Millisecond)
